@@ -1059,15 +1059,18 @@ class CSSSerializer(object):
             out = Out(self)
             if value.type in ('DIMENSION', 'NUMBER', 'PERCENTAGE'):
                 dim = value.dimension or ''
-                if value.value == 0:
+                # decide on the number as it is printed (6 decimal places),
+                # e.g. .9999995 is '1' and not '1.000000'[1:]
+                num = round(value.value, 6)
+                if num == 0:
                     val = '0'
                     if value.dimension in ('cm', 'mm', 'in', 'px', 'pc', 'pt',
                                            'em', 'ex'):
                         dim = ''
-                elif value.value == int(value.value):
+                elif num == int(num):
                     # cut off after . which is zero anyway
-                    val = text_type(int(value.value))
-                elif self.prefs.omitLeadingZero and -1 < value.value < 1:
+                    val = text_type(int(num))
+                elif self.prefs.omitLeadingZero and -1 < num < 1:
                     v = self._strip_zeros('%f' % value.value)  # issue #27
                     val = v
                     if value._sign == '-':
@@ -1079,7 +1082,7 @@ class CSSSerializer(object):
                     val = self._strip_zeros('%f' % value.value)  # issue #27
 
                 # keep '+' if given
-                if value.value != 0 and value._sign == '+':
+                if num != 0 and value._sign == '+':
                     sign = '+'
                 else:
                     sign = ''
